@@ -121,31 +121,28 @@ def run(ctx):
         report.nontriv("rr hands cursor to rdata")
     else:
         viol(report, "C05-R3", rr, "layout", "ResourceRecord::parse does not pass the cursor left by Name::parse straight to RData::parse")
-    # ---------------- R4 parse_section
+    # ---------------- R4 parse_section (or, when it was folded into Packet::parse, every loop there that parses elements)
     lps, irr, dom = loops.natural_loops(ps)
     report.count()
     pushes = mu.calls(ps, r"^std::vec::Vec::<T, A>::push$")
     parses = mu.calls(ps, r"wire_format::WireFormat::parse$")
-    if len(lps) != 1 or len(pushes) != 1 or len(parses) != 1:
+    el_loops = [(h, info) for h, info in sorted(lps.items()) if any(pb in info["body"] for pb, _ in parses)]
+    absorbed = "simple_dns::Packet::parse_section" in getattr(prog, "absorbed", {})
+    if not el_loops or (not absorbed and (len(lps) != 1 or len(pushes) != 1 or len(parses) != 1)) or (absorbed and len(el_loops) != 4):
         viol(report, "C05-R4", ps, "shape", "parse_section is no longer one loop with one element parser and one push (%d loops, %d parse calls, %d pushes)" % (
             len(lps), len(parses), len(pushes)))
     else:
-        h, info = list(lps.items())[0]
-        tpl, why = loops.check_loop(ctx, ps, W.results.get(ps.id), h, info, dom)
-        in_loop = pushes[0][0] in info["body"] and parses[0][0] in info["body"]
-        defs = mu.defs_of(ps)
-        src = mu.origin_local(ps, defs, mu.op_local(pushes[0][1]["args"][1]))
-        flows = False
-        # pushed value <- Continue payload of branch(parse result)
-        for st in mu.trace_back(ps, defs, mu.op_local(pushes[0][1]["args"][1]) or -1):
-            pass
-        cnt = ps.local_names()
-        range_ok = "Range<u16>" in why if tpl else False
-        if tpl == "T1" and in_loop and range_ok:
-            report.nontriv("parse_section")
-            report.sample({"fn": ps.qname, "loop": why})
-        else:
-            viol(report, "C05-R4", ps, "shape", "parse_section: the element parser and the push are not both inside a finite 0..count loop (%s)" % why)
+        for h, info in el_loops:
+            tpl, why = loops.check_loop(ctx, ps, W.results.get(ps.id), h, info, dom)
+            n_parse = sum(1 for pb, _ in parses if pb in info["body"])
+            n_push = sum(1 for pb, _ in pushes if pb in info["body"])
+            range_ok = "Range<u16>" in why if tpl else False
+            if tpl == "T1" and n_parse == 1 and n_push == 1 and range_ok:
+                report.nontriv("parse_section loop bb%d" % h)
+                report.sample({"fn": ps.qname, "loop": why})
+            else:
+                viol(report, "C05-R4", ps, "shape", "parse_section: the element parser and the push are not both inside a finite 0..count loop "
+                     "(%d parse calls, %d pushes; %s)" % (n_parse, n_push, why))
     r5(ctx, report)
     report.assumptions += ["A-OVF", "equality of decoded field values with a reference decoder is not decided (value-level)"]
     return report.finish()
@@ -165,24 +162,65 @@ def r5(ctx, report):
     dom = mu.dominators(pp)
     calls = mu.calls(pp, r"Packet::<'a>::parse_section$")
     report.count()
-    if len(calls) != 4:
+    fill_pushes = set()  # blocks of the pushes that fill a section's vector inside its own element loop (merged form)
+    sites = []           # (block for the order, local holding the count, cursor operand, (local, path) where the section's vector starts)
+    if len(calls) == 4:
+        for bi, t in calls:
+            sites.append((bi, mu.op_local(t["args"][2]), t["args"][1], (t["dest"]["l"], (("v", "Ok"), ("f", 0)))))
+    elif not calls and "simple_dns::Packet::parse_section" in getattr(prog, "absorbed", {}):
+        # parse_section folded into Packet::parse (through a helper inlined back): one element loop per section
+        lps, _irr, _dom = loops.natural_loops(pp)
+        parses = mu.calls(pp, r"wire_format::WireFormat::parse$")
+        pushes = mu.calls(pp, r"^std::vec::Vec::<T, A>::push$")
+        for h, info in sorted(lps.items()):
+            ps_in = [(b0, t0) for b0, t0 in parses if b0 in info["body"]]
+            pu_in = [(b0, t0) for b0, t0 in pushes if b0 in info["body"]]
+            ht = pp.blocks[h]["term"]
+            if len(ps_in) != 1 or len(pu_in) != 1 or ht["t"] != "call" or not ht.get("callee") or not ht["callee"]["def"].endswith("Range<A>>::next"):
+                continue
+            # the count: `end` of the Range the loop runs over
+            itl = mu.ref_root(pp, defs, mu.op_local(ht["args"][0])) if mu.op_local(ht["args"][0]) is not None else None
+            cnt = None
+            cur = itl
+            for _ in range(6):
+                d0 = mu.single_def(defs, cur) if cur is not None else None
+                if d0 is None:
+                    break
+                if d0[1] == "term":
+                    nm = d0[2]["callee"]["def"] if d0[2].get("callee") else ""
+                    if nm.endswith("into_iter") and d0[2]["args"]:
+                        cur = mu.op_local(d0[2]["args"][0])
+                        continue
+                    break
+                rv0 = d0[2]
+                if rv0.get("k") == "agg" and rv0.get("adt", "").endswith("Range") and len(rv0["ops"]) == 2:
+                    cnt = mu.op_local(rv0["ops"][1])
+                    break
+                if rv0.get("k") == "use" and rv0["op"].get("o") in ("copy", "move") and not rv0["op"]["pl"]["p"]:
+                    cur = rv0["op"]["pl"]["l"]
+                    continue
+                break
+            vec = mu.ref_root(pp, defs, mu.op_local(pu_in[0][1]["args"][0])) if mu.op_local(pu_in[0][1]["args"][0]) is not None else None
+            if cnt is not None and vec is not None:
+                sites.append((h, cnt, ps_in[0][1]["args"][1], (vec, ())))
+                fill_pushes.add(pu_in[0][0])
+    if len(sites) != 4:
         viol(report, "C05-R5", pp, "sections", "Packet::parse calls parse_section %d times, expected once per section (4)" % len(calls))
         return
-    # wire order = dominance order of the calls (they share one cursor)
-    calls.sort(key=lambda c: len(dom[c[0]]))
-    for (b1, _), (b2, _) in zip(calls, calls[1:]):
-        if b1 not in dom[b2]:
+    # wire order = dominance order of the sites (they share one cursor)
+    sites.sort(key=lambda c: len(dom[c[0]]))
+    for s1, s2 in zip(sites, sites[1:]):
+        if s1[0] not in dom[s2[0]]:
             viol(report, "C05-R5", pp, "sections", "the parse_section calls are not on one straight path")
             return
     cursors = set()
     vec_of_call = []
-    for k, (bi, t) in enumerate(calls):
+    for k, (bi, cnt, cursor_op, vstart) in enumerate(sites):
         report.count()
-        # the count argument: Continue payload of header_buffer::<section>(data)?
-        cnt = mu.op_local(t["args"][2])
+        # the count: Continue payload of header_buffer::<section>(data)? (through casts / copies into a helper's parameter)
         src = None
         cur = cnt
-        for _ in range(8):
+        for _ in range(12):
             if cur is None:
                 break
             ds = defs.get(cur, [])
@@ -196,7 +234,7 @@ def r5(ctx, report):
                     continue
                 src = cal
                 break
-            if x.get("k") == "use" and x["op"].get("o") in ("copy", "move"):
+            if x.get("k") in ("use", "cast") and x["op"].get("o") in ("copy", "move"):
                 cur = x["op"]["pl"]["l"]     # payload projections `(_19 as Continue).0` keep the base local
                 continue
             break
@@ -206,17 +244,24 @@ def r5(ctx, report):
                  "attributed to the wrong section" % (["first", "second", "third", "fourth"][k], src or "an untraced value", want), SECTIONS[k])
         else:
             report.nontriv("count %s" % SECTIONS[k])
-        # cursor argument: &mut of one and the same local
-        c = mu.op_local(t["args"][1])
+        # cursor argument: &mut of one and the same local (or of one and the same field of a local struct)
+        c = mu.op_local(cursor_op)
         st = mu.trace_back(pp, defs, c) if c is not None else []
         base = None
         for (_, _, si3, x) in st:
             if si3 != "term" and x.get("k") == "ref" and not x["pl"]["p"]:
                 base = x["pl"]["l"]
+        if base is None and c is not None:
+            for (_, _, si3, x) in st:
+                if si3 != "term" and x.get("k") == "ref":
+                    loc = mu.resolve_loc(pp, defs, x["pl"])
+                    if loc is not None:
+                        base = ("field",) + (loc[0],) + tuple(loc[1])
+                        break
         cursors.add(base)
-        # result vector: every local that holds the returned Vec as a whole (through `?`, moves, a carrier struct ...)
+        # result vector: every local that holds the section's Vec as a whole (through `?`, moves, a carrier struct ...)
         vec = set()
-        for (tl, tp) in mu.flow_forward(pp, t["dest"]["l"], start_path=(("v", "Ok"), ("f", 0))):
+        for (tl, tp) in mu.flow_forward(pp, vstart[0], start_path=vstart[1]):
             if not tp and pp.local_ty(tl)["s"].startswith("std::vec::Vec<"):
                 vec.add(tl)
         vec_of_call.append(vec)
@@ -282,7 +327,9 @@ def r5(ctx, report):
         report.count()
         bad = []
         uses = 0
-        for _, tt in mu.calls(pp, r"."):
+        for cbi, tt in mu.calls(pp, r"."):
+            if cbi in fill_pushes:
+                continue            # the push that builds the section, in wire order, inside its own loop
             if any(mu.op_local(a) in rs for a in tt["args"]):
                 uses += 1
                 cal = tt["callee"]["def"] if tt["callee"] else "an indirect call"
